@@ -735,6 +735,7 @@ package engine
 //@   trusted-frame
 //@   let rt = resolve(env, t)
 //@   at-store clause.raw requires[stored-term-has-the-bindings-applied] v == simplified(env, rt)
+//@   ensures[one-stored-entry-per-given-clause] result1 == nil ==> len(result0) == 1
 
 //@ func Call
 //@   property C03
@@ -1494,3 +1495,15 @@ package engine
 //@   trusted
 //@   modifies heap
 //@   ensures result != nil
+
+//@ func (*clause).varOffset
+//@   property C10
+//@   requires c != nil
+//@   modifies c.vars, elems(c.vars)
+//@   loop 1 invariant -1 <= $i && $i < len(c.vars) && c.vars == old(c.vars)
+//@   loop 1 invariant forall j int :: 0 <= j && j <= $i ==> c.vars[j] != o
+//@   ensures[the-offset-names-the-variable] 0 <= result && result < len(c.vars) && c.vars[result] == o
+//@   ensures[first-occurrence] forall j int :: 0 <= j && j < result ==> c.vars[j] != o
+//@   ensures[earlier-offsets-stay-valid] len(c.vars) >= old(len(c.vars)) && forall j int :: 0 <= j && j < old(len(c.vars)) ==> c.vars[j] == old(c.vars[j])
+//@   ensures[a-known-variable-gets-no-second-slot] (exists j int :: 0 <= j && j < old(len(c.vars)) && old(c.vars[j]) == o) ==> len(c.vars) == old(len(c.vars))
+//@   ensures[a-new-variable-gets-the-next-slot] (forall j int :: 0 <= j && j < old(len(c.vars)) ==> old(c.vars[j]) != o) ==> len(c.vars) == old(len(c.vars)) + 1 && result == old(len(c.vars))
